@@ -507,3 +507,64 @@ package starlark
 //@   assert /fr.pc = pc/ [C07] one_step_per_instruction: nocallback ==> thread.Steps == wrapu64(s0 + 1)
 //@   assert /fr.pc = pc/ [C07] limit_stops_dispatch: nocallback ==> wrapu64(s0 + 1) < limit
 //@   assert /fr.pc = pc/ [C07] cancel_stops_dispatch: !thread.cancelReason.isset
+
+// ---- argument binding (C08)
+//@ func Function.NumParams
+//@   pure
+//@   ensures result == fn.funcode.NumParams
+//@ func Function.NumKwonlyParams
+//@   pure
+//@   ensures result == fn.funcode.NumKwonlyParams
+//@ func Function.HasVarargs
+//@   pure
+//@   ensures result == fn.funcode.HasVarargs
+//@ func Function.HasKwargs
+//@   pure
+//@   ensures result == fn.funcode.HasKwargs
+
+//@ func findParam
+//@   prop C08
+//@   pure
+//@   invariant 1 rangeindex >= -1 && forall(k, 0, rangeindex + 1, params[k].Name != name)
+//@   ensures first_match: result == -1 || (0 <= result && result < len(params) && params[result].Name == name && forall(k, 0, result, params[k].Name != name))
+//@   ensures none_means_absent: result == -1 ==> forall(k, 0, len(params), params[k].Name != name)
+
+// np: ordinary parameters (without *args / **kwargs); nko: those that may be given positionally
+//@ specfn np(fn *Function) int = fn.funcode.NumParams - ite(fn.funcode.HasKwargs, 1, 0) - ite(fn.funcode.HasVarargs, 1, 0)
+//@ specfn nko(fn *Function) int = np(fn) - fn.funcode.NumKwonlyParams
+//@ specfn npos(fn *Function, nargs int) int = ite(nargs > nko(fn), nko(fn), nargs)
+// the *args slot holds a freshly allocated tuple with exactly the surplus positional arguments, in order
+//@ specfn vaok(locals any, fn any, args any) bool = fn.funcode.HasVarargs ==> (typeis(locals[np(fn)], Tuple) && freshobj(as(locals[np(fn)], Tuple)) && len(as(locals[np(fn)], Tuple)) == len(args) - npos(fn, len(args)) && forall(j, 0, len(args) - npos(fn, len(args)), as(locals[np(fn)], Tuple)[j] == args[npos(fn, len(args)) + j]))
+//@ func setArgs
+//@   prop C08
+//@   requires fn != nil && fn.funcode != nil
+//@   requires 0 <= nko(fn) && nko(fn) <= np(fn) && fn.funcode.NumParams <= len(locals) && np(fn) <= len(fn.funcode.Locals) && len(fn.defaults) <= np(fn)
+//@   requires rootof(locals) != rootof(args) && forall(k, 0, len(args), args[k] != nil)
+//@   invariant 1 0 <= i && i <= n && n == npos(fn, len(args)) && nparams == np(fn) && forall(k, 0, i, locals[k] == args[k]) && forall(k, 0, len(args), args[k] != nil)
+//@   invariant 2 n <= i && i <= len(args) && n == npos(fn, len(args)) && nparams == np(fn) && forall(k, 0, n, locals[k] == args[k]) && forall(j, 0, i - n, tuple[j] == args[n + j]) && len(tuple) == len(args) - n && freshobj(tuple) && forall(k, 0, len(args), args[k] != nil)
+//@   invariant 3 vaok(locals, fn, args) && n == npos(fn, len(args)) && nparams == np(fn) && forall(k, 0, n, locals[k] == args[k]) && forall(k, 0, len(args), args[k] != nil)
+//@   invariant 4 vaok(locals, fn, args) && n == npos(fn, len(args)) && nparams == np(fn) && n <= i && forall(k, 0, n, locals[k] == args[k]) && forall(k, 0, len(args), args[k] != nil)
+//@   invariant 5 vaok(locals, fn, args) && n == npos(fn, len(args)) && nparams == np(fn) && n <= i && forall(k, 0, n, locals[k] == args[k]) && forall(k, 0, len(args), args[k] != nil)
+//@   ensures positional_prefix: err == nil ==> forall(k, 0, npos(fn, len(args)), locals[k] == args[k])
+//@   ensures varargs_fresh_copy: err == nil ==> vaok(locals, fn, args)
+//@   ensures surplus_rejected_without_varargs: fn.funcode.NumParams > 0 && !fn.funcode.HasVarargs && len(args) > nko(fn) ==> err != nil
+
+// ---- UnpackArgs (C08): intset is a set of parameter indices (bitset below 64, map above);
+// its implementation is trusted (bit operations and Go maps), its behaviour is the ghost set has[].
+//@ func intset.init
+//@   trusted bitset/map representation
+//@   modifies $ghost:intset.has[], is.large
+//@   ensures forall(k, 0, n, !gelem(intset.has, is, k))
+//@ func intset.set
+//@   trusted bitset/map representation
+//@   modifies $ghost:intset.has[], is.small
+//@   ensures prev == old(gelem(intset.has, is, i)) && gupdate(intset.has, is, i, true)
+//@ func intset.get
+//@   trusted bitset/map representation
+//@   pure
+//@   ensures result == gelem(intset.has, is, i)
+// Every argument supplied positionally is recorded as supplied, whatever its value
+// (so that the same parameter given again by keyword is a duplicate).
+//@ func UnpackArgs
+//@   prop C08
+//@   bodyensures 1 positional_recorded: gelem(intset.has, defined, rangeindex + 1)
